@@ -334,42 +334,56 @@ theorem request_head {w : W} {q : Quoted} {rv dt} {g : Rev}
 
 /-- From `w` to `w'` the server's revision counters only grew, and every entry of the revision store is an old entry or a
     revision, learnt for a key in `A`, that is not ahead of the server. -/
+def DocsInv (sv : Server) : Prop := (AList.keys sv.docs).Nodup
+
+theorem docsInv_write {sv : Server} (i : Ident) (b : Option Data) (h : DocsInv sv) : DocsInv (write sv i b) :=
+  AList.nodup_keys_set h
+
+theorem docsInv_serve {sv : Server} (rq : Req) (h : DocsInv sv) : DocsInv (serve sv rq).1 := by
+  rcases serve_cases sv rq with e | ⟨q, b, _, e⟩
+  · rw [e]; exact h
+  · rw [e]; exact docsInv_write _ _ h
+
+theorem docsInv_request {w : W} (rq : Req) (h : DocsInv w.sv) : DocsInv (request w rq).1.sv := by
+  rcases (request_cases w rq).2 with ⟨e, _⟩ | ⟨_, e | e, _⟩
+  · rw [e]; exact docsInv_serve _ h
+  · rw [e]; exact h
+  · rw [e]; exact docsInv_serve _ h
+
 def Frame (w w' : W) (A : Quoted → Prop) : Prop :=
   (∀ j, genOf w.sv j ≤ genOf w'.sv j) ∧
-  (∀ q r, (q, r) ∈ w'.cl.revs → (q, r) ∈ w.cl.revs ∨ (A q ∧ r ≤ genOf w'.sv (unquote q)))
+  (∀ q r, (q, r) ∈ w'.cl.revs → (q, r) ∈ w.cl.revs ∨ (A q ∧ r ≤ genOf w'.sv (unquote q))) ∧
+  (DocsInv w.sv → DocsInv w'.sv)
 
-theorem Frame.refl (w : W) (A : Quoted → Prop) : Frame w w A := ⟨fun _ => Nat.le_refl _, fun _ _ h => Or.inl h⟩
+theorem Frame.refl (w : W) (A : Quoted → Prop) : Frame w w A := ⟨fun _ => Nat.le_refl _, fun _ _ h => Or.inl h, id⟩
 
 theorem Frame.trans {w w' w'' : W} {A : Quoted → Prop} (h1 : Frame w w' A) (h2 : Frame w' w'' A) : Frame w w'' A := by
-  refine ⟨fun j => Nat.le_trans (h1.1 j) (h2.1 j), fun q r hm => ?_⟩
-  rcases h2.2 q r hm with hm' | hm'
-  · rcases h1.2 q r hm' with hm'' | ⟨ha, hle⟩
+  refine ⟨fun j => Nat.le_trans (h1.1 j) (h2.1 j), fun q r hm => ?_, fun h => h2.2.2 (h1.2.2 h)⟩
+  rcases h2.2.1 q r hm with hm' | hm'
+  · rcases h1.2.1 q r hm' with hm'' | ⟨ha, hle⟩
     · exact Or.inl hm''
     · exact Or.inr ⟨ha, Nat.le_trans hle (h2.1 _)⟩
   · exact Or.inr hm'
 
 theorem Frame.mono {w w' : W} {A B : Quoted → Prop} (h : Frame w w' A) (hab : ∀ q, A q → B q) : Frame w w' B :=
-  ⟨h.1, fun q r hm => (h.2 q r hm).imp id (fun ⟨ha, hl⟩ => ⟨hab q ha, hl⟩)⟩
+  ⟨h.1, fun q r hm => (h.2.1 q r hm).imp id (fun ⟨ha, hl⟩ => ⟨hab q ha, hl⟩), h.2.2⟩
 
 theorem frame_same {w w' : W} (A : Quoted → Prop) (hs : w'.sv = w.sv) (hr : w'.cl.revs = w.cl.revs) : Frame w w' A :=
-  ⟨fun j => by rw [hs]; exact Nat.le_refl _, fun q r hm => Or.inl (by rw [hr] at hm; exact hm)⟩
+  ⟨fun j => by rw [hs]; exact Nat.le_refl _, fun q r hm => Or.inl (by rw [hr] at hm; exact hm), fun h => by rw [hs]; exact h⟩
 
 theorem frame_request (w : W) (rq : Req) (A : Quoted → Prop) : Frame w (request w rq).1 A :=
-  ⟨request_gen_mono w rq, fun q r hm => Or.inl (by rw [request_cl] at hm; exact hm)⟩
+  ⟨request_gen_mono w rq, fun q r hm => Or.inl (by rw [request_cl] at hm; exact hm), docsInv_request rq⟩
 
 theorem frame_setRev {w : W} {q : Quoted} {r : Rev} {A : Quoted → Prop} (ha : A q) (hr : r ≤ genOf w.sv (unquote q)) :
     Frame w (setRev w q r) A := by
-  refine ⟨fun j => Nat.le_refl _, fun q' r' hm => ?_⟩
+  refine ⟨fun j => Nat.le_refl _, fun q' r' hm => ?_, id⟩
   rcases mem_set hm with h | h
   · cases h; exact Or.inr ⟨ha, hr⟩
   · exact Or.inl h
 
 theorem frame_eraseRev (w : W) (q : Quoted) (A : Quoted → Prop) :
     Frame w { w with cl := { w.cl with revs := eraseKey q w.cl.revs } } A :=
-  ⟨fun j => Nat.le_refl _, fun _ _ hm => Or.inl (mem_eraseKey hm)⟩
-
-
-
+  ⟨fun j => Nat.le_refl _, fun _ _ hm => Or.inl (mem_eraseKey hm), id⟩
 
 /-! ### frames of the client operations -/
 
